@@ -43,7 +43,7 @@ Lemma service_first a :
   /\ o_wrote_header1 res = t_wrote_header (fst (first_state a))
   /\ o_nws1 res = ch_nws (snd (first_state a)).
 Proof.
-  cbn zeta. unfold channel_service, first_state.
+  cbn zeta. unfold channel_service, first_state. destruct (connected disc 0); unfold ladder;
   repeat match goal with
          | |- context [match ?x with _ => _ end] => destruct x eqn:?
          | |- context [if ?x then _ else _] => destruct x eqn:?
@@ -81,7 +81,8 @@ Proof.
   destruct (service_first a) as (E1 & E2 & E3). cbn zeta in *.
   destruct (Inv_first a Ha) as [I1 _].
   rewrite E1, E3. revert Hs I1. unfold channel_service, response_500, first_state.
-  set (x := if connected disc 0 then _ else _).
+  destruct (connected disc 0); [|cbn; discriminate].
+  set (x := task_service cap lower c r disc _ _). unfold ladder.
   destruct (x_out x) as [u|e]; [cbn; discriminate|].
   destruct (exn_eqb e ClientDisconnected); [cbn; discriminate|].
   destruct (is_Exception e); [|cbn; discriminate].
@@ -124,7 +125,7 @@ Proof.
     destruct (start_response lower (fst s1) status headers exc) as [t o]. cbn [fst snd] in *. subst o.
     eexists. split; [reflexivity|]. cbn [fst]. congruence. }
   destruct Hrun as (s2 & Hrun & Hw2).
-  unfold channel_service. rewrite He, Hconn.
+  unfold channel_service. rewrite He, Hconn. unfold ladder.
   unfold task_service, task_run, wsgi_execute. rewrite Hrun. cbn [x_out x_st].
   assert (Hos : is_OSError e = false) by (destruct Hcls; subst; reflexivity).
   assert (Hcd : exn_eqb e ClientDisconnected = false) by (destruct Hcls; subst; reflexivity).
